@@ -1086,6 +1086,14 @@ func (x *Env) observe(ts *taskState, oi int, op *Op, recv int, recvIsE int) {
 	if x.abort {
 		return
 	}
+	if op != nil && op.Q {
+		// a step after which the caller does not look: the next operation
+		// consumes whatever representation this one left behind
+		ts.extra = ts.extra[:0]
+		ts.digest = append(ts.digest, 0)
+		x.St.Probes["step_without_observation"]++
+		return
+	}
 	defer func() {
 		if r := recover(); r != nil {
 			if sc, ok := r.(sched.ErrStepCap); ok {
@@ -1111,102 +1119,136 @@ func (x *Env) observe(ts *taskState, oi int, op *Op, recv int, recvIsE int) {
 		}
 		dg = (dg ^ 0xff) * 0x100000001b3
 	}
-	for i := range ts.E {
-		if !x.R.ObsAll && !(recvIsE == 1 && i == recv) {
-			continue
-		}
-		x.St.Observes++
-		got := ts.E[i].Encode()
-		x.yp()
-		want := model.EncodeCompressed(ts.ME[i])
-		mixb(got)
-		if strict && !bytes.Equal(got, want) {
-			mon, site := "M-ref", "encode"
-			if !(recvIsE == 1 && i == recv) {
-				mon, site = "M-others", "element"
-			} else if p, err := model.Decode(got); err != nil || !p.Valid() {
-				mon, site = "M-valid", "encode"
-			}
-			x.fail(ts, oi, op, mon, site, fmt.Sprintf("element variable %d encodes to %s, model says %s", i, hexOf(got), hexOf(want)))
-			return
-		}
-		if x.R.Returns {
-			if x.retain(ts, oi, op, "Element.Encode", got) {
-				return
-			}
-		}
-		id := ts.E[i].IsIdentity()
-		x.yp()
-		mixb([]byte{byte(b2i(id))})
-		if strict && id != ts.ME[i].IsInf() {
-			x.fail(ts, oi, op, "M-ref", "isidentity", fmt.Sprintf("element variable %d: IsIdentity = %v, model says %v", i, id, ts.ME[i].IsInf()))
-			return
-		}
-		if ts.ME[i].IsInf() && recvIsE == 1 && i == recv && op != nil {
-			x.St.Probes["identity_via_"+op.K]++
-		}
-	}
-	for i := range ts.S {
-		if !x.R.ObsAll && !(recvIsE == 0 && i == recv) {
-			continue
-		}
-		x.St.Observes++
-		got := ts.S[i].Encode()
-		x.yp()
-		if ts.MS[i] == nil {
-			ts.MS[i] = new(big.Int).SetBytes(got)
-		}
-		want := model.SEncode(ts.MS[i])
-		mixb(got)
-		if strict && !bytes.Equal(got, want) {
-			mon, site := "M-ref", "encode"
-			if !(recvIsE == 0 && i == recv) {
-				mon, site = "M-others", "scalar"
-			}
-			x.fail(ts, oi, op, mon, site, fmt.Sprintf("scalar variable %d encodes to %x, model says %x", i, got, want))
-			return
-		}
-		if x.R.Returns {
-			if x.retain(ts, oi, op, "Scalar.Encode", got) {
-				return
-			}
-		}
-		z := ts.S[i].IsZero()
-		x.yp()
-		mixb([]byte{byte(b2i(z))})
-		if strict && z != (ts.MS[i].Sign() == 0) {
-			x.fail(ts, oi, op, "M-ref", "iszero", fmt.Sprintf("scalar variable %d: IsZero = %v, model says %v", i, z, ts.MS[i].Sign() == 0))
-			return
-		}
-	}
+	// three groups of observers, in an order chosen per run: a defect that one
+	// observer repairs as a side effect (lazy normalisation, say) must not be
+	// masked by always observing in the same order
 	var eqs []byte
-	if x.R.ObsAll {
+	encPhase := func() bool {
 		for i := range ts.E {
-			for j := range ts.E {
-				want := b2i(ts.ME[i].Eq(ts.ME[j]))
-				got := ts.E[i].Equal(ts.E[j])
-				x.yp()
-				eqs = append(eqs, byte(got))
-				if strict && got != want {
-					x.fail(ts, oi, op, "M-ref", "equal", fmt.Sprintf("element %d Equal element %d = %d, model says %d", i, j, got, want))
-					return
+			if !x.R.ObsAll && !(recvIsE == 1 && i == recv) {
+				continue
+			}
+			x.St.Observes++
+			got := ts.E[i].Encode()
+			x.yp()
+			want := model.EncodeCompressed(ts.ME[i])
+			mixb(got)
+			if strict && !bytes.Equal(got, want) {
+				mon, site := "M-ref", "encode"
+				if !(recvIsE == 1 && i == recv) {
+					mon, site = "M-others", "element"
+				} else if p, err := model.Decode(got); err != nil || !p.Valid() {
+					mon, site = "M-valid", "encode"
 				}
-				if want == 1 && i != j && !ts.ME[i].IsInf() {
-					x.St.Probes["equal_true_distinct_vars"]++
+				x.fail(ts, oi, op, mon, site, fmt.Sprintf("element variable %d encodes to %s, model says %s", i, hexOf(got), hexOf(want)))
+				return true
+			}
+			if x.R.Returns {
+				if x.retain(ts, oi, op, "Element.Encode", got) {
+					return true
 				}
 			}
 		}
 		for i := range ts.S {
-			for j := range ts.S {
-				want := b2i(ts.MS[i].Cmp(ts.MS[j]) == 0)
-				got := ts.S[i].Equal(ts.S[j])
-				x.yp()
-				eqs = append(eqs, byte(got))
-				if strict && got != want {
-					x.fail(ts, oi, op, "M-ref", "equal", fmt.Sprintf("scalar %d Equal scalar %d = %d, model says %d", i, j, got, want))
-					return
+			if !x.R.ObsAll && !(recvIsE == 0 && i == recv) {
+				continue
+			}
+			x.St.Observes++
+			got := ts.S[i].Encode()
+			x.yp()
+			if ts.MS[i] == nil {
+				ts.MS[i] = new(big.Int).SetBytes(got)
+			}
+			want := model.SEncode(ts.MS[i])
+			mixb(got)
+			if strict && !bytes.Equal(got, want) {
+				mon, site := "M-ref", "encode"
+				if !(recvIsE == 0 && i == recv) {
+					mon, site = "M-others", "scalar"
+				}
+				x.fail(ts, oi, op, mon, site, fmt.Sprintf("scalar variable %d encodes to %x, model says %x", i, got, want))
+				return true
+			}
+			if x.R.Returns {
+				if x.retain(ts, oi, op, "Scalar.Encode", got) {
+					return true
 				}
 			}
+		}
+		return false
+	}
+	idPhase := func() bool {
+		for i := range ts.E {
+			if !x.R.ObsAll && !(recvIsE == 1 && i == recv) {
+				continue
+			}
+			id := ts.E[i].IsIdentity()
+			x.yp()
+			mixb([]byte{byte(b2i(id))})
+			if strict && id != ts.ME[i].IsInf() {
+				x.fail(ts, oi, op, "M-ref", "isidentity", fmt.Sprintf("element variable %d: IsIdentity = %v, model says %v", i, id, ts.ME[i].IsInf()))
+				return true
+			}
+			if ts.ME[i].IsInf() && recvIsE == 1 && i == recv && op != nil {
+				x.St.Probes["identity_via_"+op.K]++
+			}
+		}
+		for i := range ts.S {
+			if !x.R.ObsAll && !(recvIsE == 0 && i == recv) {
+				continue
+			}
+			if ts.MS[i] == nil {
+				continue
+			}
+			z := ts.S[i].IsZero()
+			x.yp()
+			mixb([]byte{byte(b2i(z))})
+			if strict && z != (ts.MS[i].Sign() == 0) {
+				x.fail(ts, oi, op, "M-ref", "iszero", fmt.Sprintf("scalar variable %d: IsZero = %v, model says %v", i, z, ts.MS[i].Sign() == 0))
+				return true
+			}
+		}
+		return false
+	}
+	eqPhase := func() bool {
+		if x.R.ObsAll {
+			for i := range ts.E {
+				for j := range ts.E {
+					want := b2i(ts.ME[i].Eq(ts.ME[j]))
+					got := ts.E[i].Equal(ts.E[j])
+					x.yp()
+					eqs = append(eqs, byte(got))
+					if strict && got != want {
+						x.fail(ts, oi, op, "M-ref", "equal", fmt.Sprintf("element %d Equal element %d = %d, model says %d", i, j, got, want))
+						return true
+					}
+					if want == 1 && i != j && !ts.ME[i].IsInf() {
+						x.St.Probes["equal_true_distinct_vars"]++
+					}
+				}
+			}
+			for i := range ts.S {
+				for j := range ts.S {
+					if ts.MS[i] == nil || ts.MS[j] == nil {
+						continue
+					}
+					want := b2i(ts.MS[i].Cmp(ts.MS[j]) == 0)
+					got := ts.S[i].Equal(ts.S[j])
+					x.yp()
+					eqs = append(eqs, byte(got))
+					if strict && got != want {
+						x.fail(ts, oi, op, "M-ref", "equal", fmt.Sprintf("scalar %d Equal scalar %d = %d, model says %d", i, j, got, want))
+						return true
+					}
+				}
+			}
+		}
+		return false
+	}
+	order := [][3]func() bool{{encPhase, idPhase, eqPhase}, {eqPhase, idPhase, encPhase}, {idPhase, eqPhase, encPhase}}[x.R.ObsOrder%3]
+	for _, ph := range order {
+		if ph() {
+			return
 		}
 	}
 	mixb(eqs)
